@@ -161,6 +161,61 @@ def run(ctx):
                 s2.violate(inp, (how, "second.s", pos, stmt), rep, "the second source's error is reported as another kind of failure (or not located)")
             elif rep[1] != "second.s" or rep[2] != pos or rep[4] != stmt or (how == "scan" and rep[3] != col):
                 s2.violate(inp, ("second.s", pos, col if how == "scan" else None, stmt), rep[1:], "reported file / line / column / quoted line differ from the erroneous statement of the second source")
-        return [s, s2]
+        # the file API: what is reported refers to the file as it is on disk (leading blank lines, indentation kept)
+        s3 = core.Stream("S4-file-api", "sources written to disk with leading blank lines / indentation / trailing blanks and assembled with Program.assemble_as_patch: the logged error names the file, the zero-based line of the erroneous statement, its column and its text")
+        import logging
+        import os
+        from props import frontends
+        for i in range(20 if tier == "quick" else 200):
+            kind, stmt, col, how = rng.choice([e for e in ERRS if e[0] != "unterminated-string-backslash"])
+            lead = [rng.choice(["", "", "   ", "\t"]) for _ in range(rng.randrange(0, 4))]
+            pre = lead + ["*=0x038000"] + ["nop"] * rng.randrange(0, 4)
+            text = "\n".join(pre + [stmt, "rts"]) + rng.choice(["\n", "", "\n\n", "  \n"])
+            pos = len(pre)
+            name = f"file_zq_{i}.s"
+            path = os.path.join(run_.tmp, name)
+            with open(path, "w", encoding="utf-8") as fh:
+                fh.write(text)
+            cap = frontends.LogCapture()
+            logging.disable(logging.NOTSET)
+            loggers = [logging.getLogger("x816"), logging.getLogger("a816")]
+            for lg in loggers:
+                lg.addHandler(cap)
+                lg.setLevel(logging.INFO)
+                lg.propagate = False
+            try:
+                with impl.quiet(), core.watchdog(20):
+                    try:
+                        rc = Program().assemble_as_patch(path, os.path.join(run_.tmp, "file_zq.ips"))
+                    except BaseException as e:  # noqa: BLE001
+                        if isinstance(e, (KeyboardInterrupt, SystemExit, core.Timeout)):
+                            raise
+                        rc = "raised:" + type(e).__name__
+                        cap.records.append(str(e))
+            except core.Timeout:
+                continue
+            finally:
+                for lg in loggers:
+                    lg.removeHandler(cap)
+                    lg.propagate = True
+                logging.disable(logging.CRITICAL)
+            msgs = [m for m in cap.records if "Success" not in m]
+            joined = "\n".join(msgs)
+            if re.search(r"at\n.*?:\d+ ", joined, re.S):
+                res = {"status": "rejected", "exc": "NodeError", "error": joined}
+            else:
+                res = {"status": "rejected", "exc": None, "error": joined}
+            rep = real_report(res)
+            s3.cases += 1
+            s3.nontrivial.add((kind, len(lead), pos))
+            s3.count(rep[0] if rep else "nothing-logged")
+            inp = {"file_text": text, "inserted": stmt, "at_line": pos, "status": rc}
+            if rc == 0:
+                s3.violate(inp, "a located error", "status 0", "the erroneous file is reported as assembled")
+            elif rep is None or rep[0] != how:
+                s3.violate(inp, (how, name, pos, stmt), rep, "the file API does not locate the error (or reports another kind)")
+            elif not str(rep[1]).endswith(name) or rep[2] != pos or rep[4] != stmt or (how == "scan" and rep[3] != col):
+                s3.violate(inp, (name, pos, col if how == "scan" else None, stmt), rep[1:], "file / line / column / quoted text reported through the file API differ from the statement in the file")
+        return [s, s2, s3]
     finally:
         run_.close()
